@@ -212,6 +212,7 @@ def _write_evidence(ctx: Ctx, mod, wall: float, new_violations: int, known_hits:
                      if k not in ('transitions', 'traces_validated_against_impl', 'evaluations', 'states')},
         'known_findings_hit': known_hits,
         'workers': ctx.workers,
+        'violation_keys': sorted(ctx.violations)[:200],
     }
     cov.update(ctx.notes)
     ev = {
